@@ -419,6 +419,13 @@ func (tt *termTable) Bin(op Op, a, b *Term) *Term {
 		if b.IsConst() && a.op == OpAdd && a.args[1].IsConst() {
 			return tt.Bin(OpAdd, a.args[0], tt.Const(w, a.args[1].val+b.val))
 		}
+		// (x - y) + y == x (PNG "Up" prediction undone by the decoder)
+		if a.op == OpSub && a.args[1] == b {
+			return a.args[0]
+		}
+		if b.op == OpSub && b.args[1] == a {
+			return b.args[0]
+		}
 		// Horner recomposition: q*c + r == x for the quotient/remainder atoms
 		// of x by the constant c (their defining side constraint)
 		if x := hornerRecompose(a, b); x != nil {
@@ -433,6 +440,15 @@ func (tt *termTable) Bin(op Op, a, b *Term) *Term {
 		}
 		if a == b {
 			return tt.Const(w, 0)
+		}
+		// (x + y) - y == x
+		if a.op == OpAdd {
+			if a.args[1] == b {
+				return a.args[0]
+			}
+			if a.args[0] == b {
+				return a.args[1]
+			}
 		}
 		if b.IsConst() {
 			return tt.Bin(OpAdd, a, tt.Const(w, -b.val))
